@@ -389,6 +389,22 @@ impl ClockCache {
         self.remove_for_record(key, record)
     }
 
+    /// Bytes cached for exactly this generation; leaves the reference bit alone.
+    pub fn verif_peek_for_record(&self, key: &[u8], record: &Arc<Record>) -> Option<Bytes> {
+        let hash = murmur3_32(key, 0);
+        let bucket = self.buckets[(hash as usize) % CACHE_BUCKETS].read();
+        bucket
+            .iter()
+            .find(|entry| {
+                entry.key == key
+                    && entry
+                        .record
+                        .as_ref()
+                        .is_some_and(|cached| std::ptr::eq(cached.as_ptr(), Arc::as_ptr(record)))
+            })
+            .map(|entry| entry.value.clone())
+    }
+
     pub fn verif_entry_overhead() -> usize {
         std::mem::size_of::<CacheEntry>()
     }
